@@ -12,7 +12,7 @@ VARIABLE st
 \* instances (cfg files cannot write tuples of sets)
 MB_quick == <<1, 2, 3, 2>>
 Vals_quick == <<{-1, 1, 2}, {-1, 1, 2}, {-1, 1, 2}, {-1, 1, 2}>>
-MB_d45 == <<0, 0, 0, 0, 3, 2>>
+MB_d45 == <<0, 0, 0, 0, 2, 2>>
 Vals_d45 == <<{1}, {1}, {1}, {1}, {-1, 1, 2}, {-1, 1}>>
 MB_full3 == <<1, 2, 4, 8>>
 Vals_full3 == <<{-1, 1, 2}, {-1, 1, 2}, {-1, 1, 2}, {-1, 1}>>
